@@ -183,7 +183,13 @@ class Explorer:
             if r == 'sat':
                 feas.append(i)
             elif r == 'unknown':
-                raise Unsupported('solver returned unknown on a branch feasibility query')
+                # undecided feasibility: explore the branch anyway (over-approximation - it can only add paths; every
+                # obligation on such a path is still decided under the full path condition, and a finding needs a
+                # model of it plus a native replay)
+                self.stats.unknown_feasibility = getattr(self.stats, 'unknown_feasibility', 0) + 1
+                if self.stats.unknown_feasibility > 40:
+                    raise Unsupported('solver returned unknown on more than 40 branch feasibility queries')
+                feas.append(i)
         if not feas:
             raise PathInfeasible()
         self.trail.append([0, feas])
